@@ -230,6 +230,26 @@ def check_deep(out: Outcome, sub) -> None:
                 f"emitted {flat.hex()}, expected {want.hex()}\n{src[:300]}")
 
 
+def check_otherbank(out: Outcome, sub) -> None:
+    """The target sits in another bank of the same ROM range, at an in-bank position within -128..+127 of the branch: its true
+    distance is whole banks, so it is rejected -- the bank byte of the target is never dropped."""
+    m, rom, db, d, tgt = sub["m"], sub["rom"], sub["db"], sub["d"], sub["tgt"]
+    model = busmodel.builtin(rom)
+    r = model.rom_ranges()[0]
+    B = ((r.first + 3) << 16) | (r.win_lo + 0x400)
+    T = B + 2 + d + (db << 16)
+    if tgt == "num":
+        src = f"*=0x{B:06x}\n{m} 0x{T:06x}\n"
+    elif tgt == "fwd":
+        src = f"*=0x{B:06x}\n{m} tg\n*=0x{T:06x}\ntg:\n.db 0x60\n"
+    else:
+        src = f"*=0x{T:06x}\ntg:\n.db 0x60\n*=0x{B:06x}\n{m} tg\n"
+    res = driver.assemble_mem(src, rom=rom)
+    if res.accepted:
+        flat = b"".join(dd for _, dd in res["blocks"])
+        out.bad(f"accepted-other-bank:{tgt}", sub, f"{rom}: branch at {B:#08x} to {T:#08x} ({db:+d} banks away) must be rejected but assembled: {flat.hex()}\n{src}")
+
+
 def enum_units(tier, seed):
     units = []
     for rom in ("low", "high"):
@@ -288,6 +308,13 @@ def run_case(case) -> Outcome:
             check_deep(out, sub)
             ev += 1
             nt += 1
+        # the target is in another bank, at (nearly) the same in-bank position
+        for db in (1, 2, -1, -3, 0x10):
+            for d in (-128, -2, 0, 14, 127):
+                for tgt in TARGETS:
+                    check_otherbank(out, {"t": "otherbank", "m": case["m"], "rom": case["rom"], "db": db, "d": d, "tgt": tgt})
+                    ev += 1
+                    nt += 1
         out.evals, out.nontrivial = ev, nt
         out.labels = [f"branch:{case['rom']}:{'full' if case['full'] else 'keypoints'}"]
         b = build({"m": case["m"], "rom": case["rom"], "d": -128, "tgt": "back", "place": "target-at-start", "reloc": "rom"})
@@ -299,6 +326,9 @@ def run_case(case) -> Outcome:
         return out
     if case.get("t") == "deep":
         check_deep(out, case)
+        return out
+    if case.get("t") == "otherbank":
+        check_otherbank(out, case)
         return out
     if not check_one(out, case):
         return Outcome(skip="combination outside the statement")
